@@ -19,11 +19,11 @@ MODULE = "IntraProxy"
 # (cfg, timeout, expect_ok): the repaired design must hold; the pinned design (the tree as it was found) is expected to fail --
 # its counterexamples are the ones the replay reproduces on the real code (known findings below)
 PROFILES = {
-    "quick": dict(design=[("ip_fixed_q.cfg", 120, True), ("ip_pinned_q.cfg", 120, False)],
+    "quick": dict(design=[("ip_fixed_q.cfg", 400, True), ("ip_pinned_q.cfg", 400, False)],
                   gen=[("sim_2w.cfg", ["a", "b"], 120, 260), ("sim_2c.cfg", ["a", "b"], 60, 260), ("sim_3w.cfg", ["a", "b", "c"], 40, 260)],
                   limit=150),
-    "thorough": dict(design=[("ip_fixed_q.cfg", 120, True), ("ip_fixed_msg.cfg", 300, True), ("ip_fixed_t.cfg", 400, True),
-                             ("ip_fixed_live.cfg", 300, True), ("ip_fixed_3.cfg", 400, True), ("ip_pinned_q.cfg", 120, False)],
+    "thorough": dict(design=[("ip_fixed_q.cfg", 400, True), ("ip_fixed_msg.cfg", 900, True), ("ip_fixed_t.cfg", 900, True),
+                             ("ip_fixed_live.cfg", 900, True), ("ip_fixed_3.cfg", 900, True), ("ip_pinned_q.cfg", 400, False)],
                      gen=[("sim_2w.cfg", ["a", "b"], 1500, 260), ("sim_2c.cfg", ["a", "b"], 600, 260), ("sim_3w.cfg", ["a", "b", "c"], 900, 260)],
                      limit=2400),
 }
@@ -171,7 +171,7 @@ def run_extra(c):
     cov = {}
     # ---- design
     design = {}
-    for cfg, tmo, expect_ok in prof["design"]:
+    for cfg, tmo, expect_ok in ([] if os.environ.get("IP_SKIP_DESIGN") else prof["design"]):     # (development switch)
         r = c.tlc(MODULE, "IntraProxy", cfg, workers=min(12, NCPU), timeout=tmo, name="ip-design-" + cfg[:-4])
         design[cfg] = {"distinct": r.distinct, "generated": r.generated, "ok": r.ok, "violated": r.violated, "wall_s": round(r.wall, 1)}
         if expect_ok:
